@@ -27,7 +27,7 @@ use rustc_middle::mir::{
     ProjectionElem, Rvalue, StatementKind, TerminatorKind, UnwindAction,
 };
 use rustc_middle::mir::interpret::{GlobalAlloc, Scalar};
-use rustc_middle::ty::print::{with_no_trimmed_paths, with_resolve_crate_name};
+use rustc_middle::ty::print::{with_no_trimmed_paths, with_no_visible_paths, with_resolve_crate_name};
 use rustc_middle::ty::{self, Instance, Ty, TyCtxt, TypingEnv};
 use rustc_span::Span;
 use std::collections::BTreeMap;
@@ -258,8 +258,10 @@ impl<'tcx> Extractor<'tcx> {
         }
         let gargs: Vec<Json> = ga.iter().map(|a| s(format!("{:?}", a))).collect();
         let trait_of = tcx.trait_of_assoc(fd).map(|t| self.path(t)).unwrap_or_default();
+        let dpath = with_no_visible_paths!(self.path(res_did));
         Json::obj(vec![
             ("path", s(res_path)),
+            ("dpath", s(dpath)),
             ("full", s(res_full)),
             ("orig", s(orig_plain)),
             ("orig_full", s(orig)),
